@@ -377,7 +377,9 @@ def lstrip_namespace(s, namespaces):
     :rtype: ```AnyStr```
     """
     for namespace in namespaces:
-        s = s.lstrip(namespace)
+        # `str.lstrip` takes a *set of characters*: "int".lstrip("typing.") is the empty string
+        while namespace and s.startswith(namespace):
+            s = s[len(namespace) :]
     return s
 
 
